@@ -960,7 +960,7 @@ def gen_byte_api(rng, tier, dirs, budget, with_count=False):
                     yield ("count %s %s %d 0 %d %s" % (be, hx(needles), base, length, hh),
                            dict(cfg=variant, family="count-%s" % be, untraced_widths=UNTRACED.get(be)))
         if budget and n >= budget:
-            return
+            break           # (the small families below are never cut off by the budget)
     # raw forms with start >= end: every searcher (1, 2, 3 needles) of every module, empty and
     # REVERSED windows of every size class (a reversed window wider than a vector / the unrolled
     # loop must still be "empty")
@@ -2142,3 +2142,94 @@ def gen_find_diverse(rng, tier):
 
 _wrap("C03", gen_find_diverse)
 _wrap("C04", gen_find_diverse)
+
+
+def gen_c14_empty(rng, tier):
+    """empty and reversed raw windows (find / rfind / count) must answer, never panic or abort"""
+    for op, meta in gen_byte_api(rng, "quick", ["fwd", "rev"], 1, with_count=True):
+        if meta.get("family") in ("memchr-empty", "count-empty"):
+            yield op, meta
+
+
+_wrap("C14", gen_c14_empty)
+
+
+def gen_c16_lengths(rng, tier):
+    """a needle of EVERY length 0..70 (distinct bytes, and one with a periodic tail) through the
+    ownership conversions, `needle()` read back and a search after each"""
+    for L in range(0, 71):
+        for needle in ([0x30 + (i * 7) % 75 for i in range(L)], [0x61 + (i % 3) for i in range(L)]):
+            hay = [0x2E] * 5 + needle + [0x2E] * 3 + needle[: L // 2] + [0x7A] + needle
+            prog = "n,f:%s,o,n,f:%s,i:%s,k,n,r,n,f:%s" % (hx(hay), hx(hay), hx(hay), hx(hay))
+            for (variant, cfg) in MM_CFGS_QUICK[:3]:
+                yield ("finderops %s auto %s %s" % (cfg, hx(needle), prog), dict(cfg=variant, family="finderops-len"))
+                yield ("finderrevops %s %s %s" % (cfg, hx(needle), prog), dict(cfg=variant, family="finderrevops-len"))
+            ops = "nokn" if L else "nok"
+            yield ("finditer avx2 auto default %s 9 %s %s" % (hx(needle), hx(hay), ops + "nnn"), dict(cfg="host", family="finditer-len"))
+            yield ("rfinditer avx2 %s 9 %s %s" % (hx(needle), hx(hay), ops + "nnn"), dict(cfg="host", family="rfinditer-len"))
+
+
+_wrap("C16", gen_c16_lengths)
+
+
+def gen_c17_rankers(rng, tier):
+    """finder construction with caller-supplied rankers (a 256-byte table: not zero-sized) with
+    the allocation probe armed and the recorder off"""
+    tabs = rank_tables(rng)
+    pairs = list(mm_pairs(rng, "quick", 300))
+    for needle, hay in rng.sample(pairs, 300):
+        for name, tab in tabs.items():
+            if tab is None:
+                continue
+            yield ("find avx2 auto %s 1 0 %s 5 %s" % (hx(tab), hx(needle), hx(hay)),
+                   dict(cfg="notrace", allocs=0, family="noalloc-find-ranker"))
+
+
+_wrap("C17", gen_c17_rankers)
+
+
+def gen_impure_rankers(rng, tier):
+    """rankers that are not functions of the byte (a call counter): `Pair::with_ranker` and the
+    finder built with them must still return normally with a valid pair / the right answer"""
+    needles = [[0x61, 0x62], [0x61, 0x61], [0x62, 0x61, 0x61], [0x61, 0x62, 0x61, 0x62, 0x63], list(b"hello world"), [0x61] * 40,
+               list(b"the quick brown fox jumps over the lazy dog"), [(i * 7) % 256 for i in range(300)]]
+    for needle in needles:
+        for mode in ("up", "down", "alt", "lcg"):
+            yield ("pairimp %s %s" % (mode, hx(needle)), dict(cfg="host", family="pairimp", modelless=True))
+            hay = [0x2E] * 70 + needle + [0x2E] * 9
+            yield ("findimp %s %s %s" % (mode, hx(needle), hx(hay)), dict(cfg="host", family="findimp", modelless=True))
+
+
+_wrap("C19", gen_impure_rankers)
+_wrap("C10", gen_impure_rankers)
+
+
+def gen_c05_nodebug(rng, tier):
+    """the same small-lane / real-SIMD raw searches and counts in a build WITHOUT debug assertions
+    (a violated alignment or bounds invariant is then not stopped by a `debug_assert!` but shows
+    as the recorded misaligned / out-of-region load, or as a fault on the real vector load)"""
+    n = 0
+    for op, meta in GENERATORS_BASE_C05(rng, "quick", None):
+        head = op.split(" ", 1)[0]
+        if head not in ("gfind", "gcount", "memchr", "count", "swar", "swarcount"):
+            continue
+        if meta.get("cfg", "host") != "host" or meta.get("domain", "in") != "in":
+            continue
+        n += 1
+        if n % 3:
+            continue
+        yield op, dict(meta, cfg="nodebug", family=meta.get("family", head) + "-nodebug")
+    # iterator states: count / next / next_back after the front or back has moved to an odd address
+    for be in ("avx2", "sse2", "swar"):
+        for a in range(0, 64, 1 if be != "swar" else 3):
+            for length in (70, 150, 300):
+                for j in (0, 1, 5, 17, 33):
+                    hh = "r%dx2e+61+r%dx2e+61+r20x2e" % (j, length - j)
+                    for ops in ("nc", "nnc", "bc", "nbc", "cn"):
+                        yield ("iter %s 61 %d %s %s" % (be, a, hh, ops), dict(cfg="nodebug", family="iter-nodebug-" + be, untraced_widths=UNTRACED.get(be)))
+                        if a % 4 == 0:
+                            yield ("iter %s 61 %d %s %s" % (be, a, hh, ops), dict(cfg="host", family="iter-count-" + be, untraced_widths=UNTRACED.get(be)))
+
+
+GENERATORS_BASE_C05 = g_c05
+_wrap("C05", gen_c05_nodebug)
